@@ -120,6 +120,7 @@ pub fn pl_of(e: &Entry) -> u64 {
         Some(Payload::Command(b)) if b.len() == 8 => u64::from_le_bytes(b[..8].try_into().unwrap()),
         Some(Payload::Noop(_)) => 1_000_001,
         Some(Payload::Config(_)) => 1_000_002,
+        Some(Payload::Command(b)) => 2_000_000 + crc32fast::hash(&b[..]) as u64,
         _ => 1_000_000,
     }
 }
